@@ -85,6 +85,9 @@ Proof.
   unfold parseEmbeddedCode in H |- *. repeat mstep H.
 Qed.
 
+Lemma parseBracesStmt_mono1 n st r s : parseBracesStmt n st = POk r s -> parseBracesStmt (S n) st = POk r s.
+Proof. intro H. pose proof parseEmbeddedCode_mono1 as IH. unfold parseBracesStmt in H |- *. repeat mstep H. Qed.
+
 Lemma parseCondDirective_mono1 n mk st r s : parseCondDirective n mk st = POk r s -> parseCondDirective (S n) mk st = POk r s.
 Proof. intro H. pose proof parseExpression_fuel_mono1 as IH. unfold parseCondDirective in H |- *. repeat mstep H. Qed.
 
@@ -103,7 +106,7 @@ Proof.
   induction n as [|f (IHs & IHbl & IHbs & IHbody & IHei & IHsl)].
   { unfold Ms, Mbl, Mbs, Mbody, Mei, Msl. repeat split; intros; discriminate. }
   unfold Ms, Mbl, Mbs, Mbody, Mei, Msl in *.
-  pose proof parseExpression_fuel_mono1 as L1. pose proof parseEmbeddedCode_mono1 as L2.
+  pose proof parseExpression_fuel_mono1 as L1. pose proof parseEmbeddedCode_mono1 as L2. pose proof parseBracesStmt_mono1 as L2b.
   pose proof parseCondDirective_mono1 as L3. pose proof parseDumpStmt_mono1 as L4.
   repeat split.
   - intros st r s H. cbn [parseStatement] in H |- *. repeat mstep H.
